@@ -7,6 +7,7 @@ LEVEL = 'model_checking'
 def run(tier, seed):
     jobs = catalog.jobs_for('C09', tier, seed)
     cov, viol = common.run_catalogue(jobs, tier, 'C09')
+    common.body_protocol_conformance(cov)
     return {'coverage': cov, 'violations': viol, 'level': LEVEL,
             'assumptions': common.ASSUMPTIONS}
 
